@@ -58,6 +58,10 @@ REF = {
     "not r.t": lambda v: not v.get("t", False),
     "r.n >= 3 or r.q == 'x'": lambda v: v["n"] >= 3 or v.get("q") == "x",
     "r.missing == 1": lambda v: False,
+    "r.m == 'only-in-m'": lambda v: v.get("m") == "only-in-m",
+    "has_field(r, 'm')": lambda v: "m" in v,
+    "any(f.name == 'm' for f in fields('string'))": lambda v: "m" in v,
+    "not (r.m == 'a')": lambda v: not (v.get("m") == "a"),
     "any(f.name == 'q' for f in fields('string'))": lambda v: "q" in v,
 }
 
@@ -121,6 +125,42 @@ def run_case(path, sel_obj, nrec, written=None, ref=None):
             "n_all": len(allrecs)}
 
 
+def fixed_order_cases(order):
+    """A NEW process meets the two descriptors that share the type name t/sel in a fixed order (the plain one first, or
+    the one with the extra field m first) -- on the binary and the JSON reader, for the selectors whose meaning depends
+    on which fields a record has.  -> cases for Trace_Filter (run through common.in_fresh_process)."""
+    import random
+
+    from flow.record import RecordWriter
+    from flow.record.selector import CompiledSelector, Selector
+
+    ad = adapters()
+    DA, DB, DM = ad["stream"][1]
+    seq = [DA, DM, DA, DM, DB, DM] if order == "plain-first" else [DM, DA, DM, DB, DA, DM]
+    rnd = random.Random(7)
+    tmp = common.scratch("c10fixed")
+    out = []
+    for aname in ("stream", "json"):
+        full = os.path.join(tmp, ad[aname][0])
+        written = []
+        with RecordWriter(full) as w:
+            for i, dsc in enumerate(seq, 1):
+                rec = build(dsc, i, rnd)
+                if dsc is DM:
+                    rec.m = "only-in-m" if i % 4 != 0 else "a"
+                written.append((i, {fn: getattr(rec, fn) for _, fn in rec._desc.get_field_tuples()}))
+                w.write(rec)
+        for s in ("Type.string == 'only-in-m'", "'only-in' in Type.string", "field_contains(r, Type.string, ['only-in-m'])", "r.m == 'only-in-m'", "has_field(r, 'm')",
+                  "r.q == 'a'", "any(f.name == 'm' for f in fields('string'))", "Type.string == 'a'", "not (r.m == 'a')"):
+            for fname, mk in (("text", lambda s: s), ("selector", Selector), ("compiled", CompiledSelector)):
+                if fname == "compiled" and "fields(" in s:
+                    continue
+                c = run_case(full, mk(s), len(seq), written, REF.get(s))
+                c["adapter"], c["form"], c["selector"], c["order"] = aname, fname, s, order
+                out.append(c)
+    return out
+
+
 EXTRA_SELECTORS = ["Type.string == 'only-in-m'", "'only-in' in Type.string", "field_contains(r, Type.string, ['only-in-m'])", "'zz' in r.l + ['zz']", "(r.l + r.l) == []", "r.l * 2 == []",
                    "Type.string == 'a'", "'a' in Type.string", "Type.varint > 3", "name(r) == 't/sel'", "has_field(r, 's')", "r.s in ['a', 'Ab']",
                    "any(x == 'a' for x in r.l)", "any(x == 'a' for x in r.l) and any(x == 'b' for x in r.l)", "field_contains(r, ['s', 'q'], ['A'])",
@@ -178,6 +218,12 @@ def run(tier):
                     cases.append(c)
                     metas.append((aname, fname, s, q))
                     ctx.case((aname, fname, s, q))
+    # process-wide state: two fresh interpreters meet the same-name descriptors in opposite orders
+    for order in ("plain-first", "extra-field-first"):
+        for c in common.in_fresh_process("c10", "fixed_order_cases", order):
+            cases.append(c)
+            metas.append((c["adapter"] + "/" + order, c["form"], c["selector"], 0))
+            ctx.case(("fixed-order", order, c["adapter"], c["form"], c["selector"]))
     for i in (0, len(cases) // 2):
         ctx.sample({"adapter": metas[i][0], "form": metas[i][1], "selector": metas[i][2], "case": cases[i]})
     path = os.path.join(common.scratch("c10t"), "cases.json")
